@@ -82,7 +82,8 @@ def gen_refine(rng, combo=None):
     return dict(data=np.array(data, dtype=np.float32), zero=zero, a=a, b=b, shifts=shifts, zs=zs, zk=zk, zs_form=str(rng.choice(['array', 'tuple', 'list'])), radius=radius, search=search, indices=idx, layout=layout,
                 correlation=str(rng.choice(['fast', 'fullframe', 'sparse'])) if combo is None else combo[0],
                 match=str(rng.choice(['fast', 'affine'])) if combo is None else combo[1],
-                tolerance=float(rng.choice([0.4, 1.0, 3.0])) if combo is None or len(combo) < 4 else combo[3], parts=rand_partitions(rng, n))
+                tolerance=float(rng.choice([0.4, 1.0, 3.0])) if combo is None or len(combo) < 4 else combo[3], parts=rand_partitions(rng, n),
+                upsample=[False, False, True, 4, 7][int(rng.integers(0, 5))])
 
 
 def refine_failure(c):
@@ -106,7 +107,7 @@ def refine_failure(c):
     ctx = FakeContext(partitions=c['parts'])
     try:
         res, used = ur.run_refine(ctx, FakeDataSet(c['data']), zero=c['zero'], a=c['a'], b=c['b'], match_pattern=pattern, matcher=matcher, correlation=corr,
-                                  match=c['match'], indices=c['indices'], steps=3, zero_shift=zs)
+                                  match=c['match'], indices=c['indices'], steps=3, zero_shift=zs, upsample=c.get('upsample', False))
     except Exception as e:  # noqa
         return 'run_refine raised %s: %s (correlation=%s match=%s zero shift %s, %d frames, partitions %s)' % (type(e).__name__, e, corr, c['match'], c['zk'], n, c['parts'])
     # the peaks correlated: lattice positions keeping the margin `search`, truncated to int; indices returned
@@ -122,6 +123,19 @@ def refine_failure(c):
         want = coords[keep].astype(int)
         if not np.array_equal(udf._kwargs['peaks'], np.round(want).astype(int)):
             return 'run_refine correlates peaks %s..., expected %s...' % (np.asarray(udf._kwargs['peaks'])[:3].tolist(), want[:3].tolist())
+    # the requested correlation is the one that ran: the stored correlation result of every frame is what the library's batch function gives
+    # for that frame with the SAME upsampling setting (the lattice below is then the match of that result)
+    if corr in ('fast', 'fullframe') and not amb:
+        from libertem_blobfinder.common import correlation as cc_
+        fn = cc_.process_frames_fast if corr == 'fast' else cc_.process_frames_full
+        base_peaks = np.asarray(ctx.last_udf._kwargs['peaks'])
+        for i in range(n):
+            sh = np.round(c['shifts'][i]).astype(int) if c['zk'] != 'none' else np.zeros(2, dtype=int)
+            lib = fn(pattern, c['data'][i:i + 1], base_peaks + sh, upsample=c.get('upsample', False))
+            if not np.array_equal(res['centers'][i], lib[0][0]) or not np.allclose(res['refineds'][i], lib[1][0], rtol=0, atol=2e-3):
+                k = int(np.argmax(np.abs(np.asarray(res['refineds'][i], dtype=float) - lib[1][0]).max(axis=1)))
+                return ('frame %d: run_refine(correlation=%s, upsample=%s) stored refined position %s for peak %s, the library function with that setting gives %s'
+                        % (i, corr, c.get('upsample', False), np.asarray(res['refineds'][i][k]).tolist(), (base_peaks + sh)[k].tolist(), lib[1][0][k].tolist()))
     # per frame: stored match == matcher's match on that frame's correlation result, started from zero + that frame's shift
     for i in range(n):
         start = c['zero'] + (c['shifts'][i] if c['zk'] != 'none' else 0)
@@ -192,6 +206,22 @@ def gen_integration_exact(rng):
     npk = int(rng.integers(1, 4))
     centers = np.array([cl.rand_peaks(rng, fy, fx, c, npk) for _ in range(n)], dtype=np.int64)
     return dict(pattern=pattern, desc=desc, data=data, centers=centers, parts=rand_partitions(rng, n), exact=True)
+
+
+def gen_integration_many(rng):
+    """more peaks than crop buffers of the library's default 512 kB budget would hold, and not a multiple of that number: every peak of
+    every frame still gets its sum"""
+    radius = float(rng.choice([8.0, 10.0]))
+    pattern = pat.Circular(radius=radius, search=2 * radius)
+    desc = {'kind': 'Circular', 'radius': radius, 'search': 2 * radius, 'radius_outer': None}
+    c = pattern.get_crop_size()
+    dt = str(rng.choice(['float32', 'float64', 'uint16']))
+    per = 2 ** 19 // ((2 * c) ** 2 * np.dtype(np.result_type(np.dtype(dt), np.float32)).itemsize)
+    npk = int(per + rng.integers(1, per))
+    fy, fx = int(rng.integers(20, 40)), int(rng.integers(20, 40))
+    data = rng.integers(0, 50, size=(2, fy, fx)).astype(dt)
+    centers = np.stack([np.column_stack([rng.integers(-c, fy + c, npk), rng.integers(-c, fx + c, npk)]) for _ in range(2)]).astype(np.int64)
+    return dict(pattern=pattern, desc=desc, data=data, centers=centers, parts=[[0], [1]] if rng.integers(0, 2) else [[1, 0]])
 
 
 def run_integration(c):
@@ -302,7 +332,7 @@ def run(ctx):
         c = gen_refine(rng, combos[k] if k < len(combos) else None)
         fail = refine_failure(c)
         ctx.count(len(c['data']), key=('refine', c['zero'].tolist(), c['parts'], c['zk'], c['correlation'], c['match']))
-        for nm in ('correlation', 'match', 'zk', 'layout', 'zs_form'):
+        for nm in ('correlation', 'match', 'zk', 'layout', 'zs_form', 'upsample'):
             ctx.hist(nm, c[nm])
         if len(ctx.cov['samples']) < 4:
             ctx.sample({'frames': len(c['data']), 'shape': list(c['data'].shape[1:]), 'partitions': c['parts'], 'zero_shift': c['zk'], 'correlation': c['correlation'], 'match': c['match'],
@@ -316,6 +346,9 @@ def run(ctx):
             break
     for k in range(ctx.n(40, 600)):
         c = gen_integration(rng) if k % 3 else gen_integration_exact(rng)
+        if k % 10 == 9:
+            c = gen_integration_many(rng)
+            ctx.hist('integration with more peaks than 512 kB of crop buffers', 1)
         fail = integration_failure(c)
         ctx.count(len(c['data']))
         if fail:
